@@ -2,7 +2,10 @@
 
 package xpath
 
-import "runtime/debug"
+import (
+	"runtime/debug"
+	"strings"
+)
 
 func init() {
 	vHarnesses["H_reject"] = H_reject
@@ -118,14 +121,7 @@ func H_deepnest() {
 	if !vSymbolic() && vHasParam("native_n") {
 		n = vParamInt("native_n")
 	}
-	expr := vParam("prefix")
-	for i := 0; i < n; i++ {
-		expr += vParam("unit")
-	}
-	expr += vParam("core")
-	for i := 0; i < n; i++ {
-		expr += vParam("close")
-	}
+	expr := vParam("prefix") + strings.Repeat(vParam("unit"), n) + vParam("core") + strings.Repeat(vParam("close"), n)
 	vReentryWatch()
 	if !vSymbolic() {
 		// scaled-down witness of stack exhaustion: a small stack limit instead of a 10^7-byte input
